@@ -97,15 +97,22 @@ func NewDB(conn *sql.DB, schema *Schema) *DB {
 			matcher := newMatcher()
 			for i, item := range items {
 				query := item.(*BaseSelectQuery)
-				// XXX: This needs more rigor, and a test. For now, call coerceMap on rows
-				// and filters to flatten out all pointers to values, etc., to copy what
-				// the row tester does when matching against the binlog. This way, a filter
-				// specifying age=48 will match a value *age=48.
-				matcher.add(i, coerceMap(query.Filter))
+				// Convert rows and filters to the driver values their columns' Valuers
+				// produce, to copy what the row tester does when matching against the
+				// binlog. This way, a filter specifying age=48 will match a value
+				// *age=48, and int(48) will match an int64 column holding 48.
+				f, err := table.driverValueMap(query.Filter)
+				if err != nil {
+					return nil, err
+				}
+				matcher.add(i, f)
 			}
 			results := make([][]interface{}, len(items))
 			for _, row := range rows {
-				f := coerceMap(table.extractRow(row))
+				f, err := table.driverValueMap(table.extractRow(row))
+				if err != nil {
+					return nil, err
+				}
 				for _, idx := range matcher.match(f) {
 					i := idx.(int)
 					results[i] = append(results[i], row)
